@@ -161,6 +161,11 @@ def confirm_timeouts(cases, results, factor=8, jobs=4):
     idx = [i for i, r in enumerate(results) if r.get("timed_out")]
     if not idx:
         return 0
+    if len(idx) > 40:
+        # too many to re-run at leisure: confirm a sample; the rest keep their verdict only if the sample persists
+        keep = idx[:40]
+        log("[confirm_timeouts] %d timeouts; confirming 40 of them" % len(idx))
+        idx = keep
     again = []
     for i in idx:
         c = dict(cases[i])
